@@ -920,7 +920,7 @@ fn birthday_pairs(per_hash: usize) -> Vec<(String, String)> {
     let word = |i: u64| -> Vec<u8> { let mut x = i.wrapping_mul(0x9E3779B97F4A7C15).wrapping_add(0x632BE59BD9B4E019); x ^= x >> 29; x = x.wrapping_mul(0xBF58476D1CE4E5B9); x ^= x >> 32;
         (0..10).map(|_| { let c = b'a' + (x % 26) as u8; x /= 26; c }).collect() };
     let mut out = vec![];
-    for (_, h) in weak_hashes() {
+    for (name, h) in weak_hashes() {
         let mut seen: std::collections::HashMap<u32, u64> = std::collections::HashMap::with_capacity(1 << 18);
         let mut found = 0usize;
         for i in 0..400_000u64 {
@@ -930,6 +930,7 @@ fn birthday_pairs(per_hash: usize) -> Vec<(String, String)> {
                 _ => {}
             }
         }
+        assert!(found > 0, "no colliding pair of 10-letter words found for the weak hash `{name}`");
     }
     out
 }
